@@ -557,6 +557,18 @@ const (
 	llgoAtomicOpLast = llgoAtomicOpBase + int(llssa.OpUMin)
 )
 
+func recvNamedOrNil(typ types.Type) *types.Named {
+retry:
+	switch t := types.Unalias(typ).(type) {
+	case *types.Named:
+		return t
+	case *types.Pointer:
+		typ = t.Elem()
+		goto retry
+	}
+	return nil
+}
+
 func recvNamed(typ types.Type) *types.Named {
 retry:
 	switch t := types.Unalias(typ).(type) {
@@ -617,7 +629,12 @@ func (p *context) funcName(fn *ssa.Function) (*types.Package, string, int) {
 			pkg = fnPkg.Pkg
 		} else if recv := fn.Type().(*types.Signature).Recv(); recv != nil && recv.Origin() != recv {
 			/* check if this is an instantiated generic method (receiver's origin differs from receiver itself)*/
-			pkg = recvNamed(recv.Type()).Obj().Pkg()
+			if named := recvNamedOrNil(recv.Type()); named != nil {
+				pkg = named.Obj().Pkg()
+			} else {
+				// promoted-method wrapper of an unnamed struct that embeds a generic instance
+				pkg = p.goTyps
+			}
 		} else {
 			pkg = p.goTyps
 		}
